@@ -129,7 +129,11 @@ impl<M: Model> Receiver<M> {
                 // Now that the message was taken, drop `msg` to free its slot
                 // in the queue and signal to one awaiting sender that a slot is
                 // available for sending.
+                #[cfg(nexosim_verif)]
+                crate::verif::point(15);
                 drop(msg);
+                #[cfg(nexosim_verif)]
+                crate::verif::point(16);
                 self.inner.sender_signal.notify_one();
 
                 // Await the future provided by the message.
@@ -237,6 +241,8 @@ impl<M: Model> Sender<M> {
             .await;
 
         if success {
+            #[cfg(nexosim_verif)]
+            crate::verif::point(17);
             self.inner.receiver_signal.notify();
 
             // Increment the count of in-flight messages.
